@@ -184,6 +184,45 @@ pub fn judge_a(b: &[u8]) -> VerdictA {
         packetish!("Packet", Packet::parse(b), None, 4);
     }
 
+    // conversions reject with the same error type: from an accepted generic packet or unknown
+    // packet, by reference (`try_as`) and by value (`TryFrom`), into each typed view
+    macro_rules! conv {
+        ($ty:ty, $name:expr, $pt:expr) => {{
+            let results: [(&str, Result<Option<Result<(), RtcpParseError>>, crate::guard::PanicInfo>); 4] = [
+                ("Packet::try_as", guarded(|| Packet::parse(b).ok().map(|p| p.try_as::<$ty>().map(|_| ())))),
+                ("TryFrom<Packet>", guarded(|| Packet::parse(b).ok().map(|p| <$ty>::try_from(p).map(|_| ())))),
+                ("Unknown::try_as", guarded(|| Unknown::parse(b).ok().map(|u| u.try_as::<$ty>().map(|_| ())))),
+                ("TryFrom<Unknown>", guarded(|| Unknown::parse(b).ok().map(|u| <$ty>::try_from(u).map(|_| ())))),
+            ];
+            for (how, r) in results {
+                match r {
+                    Ok(None) => {}
+                    Ok(Some(r)) => {
+                        v.codes.push(code(&r));
+                        if let Err(e) = &r {
+                            if let Some(d) = generic_lie(b, e, Some($pt)) {
+                                v.violation.get_or_insert((format!("Lie:{how}::<{}>", $name), format!("{how}::<{}> on an accepted packet of {} bytes: {d}", $name, b.len())));
+                            }
+                        }
+                    }
+                    Err(_) => {
+                        v.codes.push(255);
+                        v.panics += 1
+                    }
+                }
+            }
+        }};
+    }
+    if b.len() >= 4 && b[0] >> 6 == 2 && b.len() == 4 * (be16(b, 2) + 1) {
+        conv!(SenderReport, "Sr", 200);
+        conv!(ReceiverReport, "Rr", 201);
+        conv!(Sdes, "Sdes", 202);
+        conv!(Bye, "Bye", 203);
+        conv!(App, "App", 204);
+        conv!(TransportFeedback, "Tfb", 205);
+        conv!(PayloadFeedback, "Pfb", 206);
+    }
+
     // non-packet parsers: generic truths, and the minimum-size clause where a minimum exists
     macro_rules! plain {
         ($name:expr, $parse:expr, $min:expr) => {{
@@ -612,7 +651,7 @@ impl Check for C18 {
     }
 
     fn rule(&self) -> String {
-        "Layer A: the C08 enumeration (exhaustive single faults + 200 seeded double faults around one intact packet per episode) delivered to 7 typed parsers, Unknown, Packet, ReportBlock, Compound, the 5 FCI parsers directly and parse_fci for all 10 pairs; plus the C11 tiling fault space around one compound per episode for Compound::parse; plus, in the first 4096 episodes of a run, the exhaustive sweep of the 16-bit length field (all 65536 values; single packets of every type and compounds; real size = announced -4/-1/0/+1/+4). Every returned error is checked against facts computed from the bytes. Layer B: 4 streams per episode of 1-16 intact packets delivered in seeded fragments (short reads) to a reassembly loop that trusts Truncated.expected. evaluations = deliveries + streams. Non-trivial = a fault fired and the delivery is at least 4 bytes, or a fragmented stream; distinct = distinct (vector of per-parser result codes, fault-kind sequence, length in words) resp. (packets, fragmentation style, length class).".into()
+        "Layer A: the C08 enumeration (exhaustive single faults + 200 seeded double faults around one intact packet per episode) delivered to 7 typed parsers, Unknown, Packet, ReportBlock, Compound, the 5 FCI parsers directly, parse_fci for all 10 pairs, and the 28 conversions (try_as / TryFrom, from Packet / Unknown, into each typed view) of whatever the generic parsers accept; plus the C11 tiling fault space around one compound per episode for Compound::parse; plus, in the first 4096 episodes of a run, the exhaustive sweep of the 16-bit length field (all 65536 values; single packets of every type and compounds; real size = announced -4/-1/0/+1/+4). Every returned error is checked against facts computed from the bytes. Layer B: 4 streams per episode of 1-16 intact packets delivered in seeded fragments (short reads) to a reassembly loop that trusts Truncated.expected. evaluations = deliveries + streams. Non-trivial = a fault fired and the delivery is at least 4 bytes, or a fragmented stream; distinct = distinct (vector of per-parser result codes, fault-kind sequence, length in words) resp. (packets, fragmentation style, length class).".into()
     }
     fn assumptions(&self) -> Vec<String> {
         vec![
